@@ -155,6 +155,30 @@ def single_def_value(fi, name, at_call):
     return vals[0][1]
 
 
+def known_absent(fi, cfg, cc, at, key, container):
+    """True when every execution of the cfg node of `at` has `key not in container`: either the membership test itself
+    edge-dominates the node, or a local bound once to `container.get(key[, None])` is tested `is None` / falsy"""
+    node = cfg.node_of(at)
+    for (t, pol) in cfg.conditions_of(node.id):
+        for l in cc.literal(t, pol):
+            if l.kind == "atom" and l.subject == "%s in %s" % (key, container) and not l.positive:
+                return True
+            name = None
+            if l.kind == "set" and l.values == frozenset([repr(None)]) and l.positive:
+                name = l.subject
+            elif l.kind == "truth" and not l.positive:
+                name = l.subject
+            if name and name.isidentifier():
+                v = single_def_value(fi, name, t)
+                if isinstance(v, ast.Call) and isinstance(v.func, ast.Attribute) and v.func.attr == "get" and norm(v.func.value) == container \
+                        and v.args and norm(v.args[0]) == key and (len(v.args) == 1 or (isinstance(v.args[1], ast.Constant) and v.args[1].value is None)) \
+                        and not v.keywords:
+                    # the same definition must still be the one that reaches the guarded node
+                    if single_def_value(fi, name, at) is v:
+                        return True
+    return False
+
+
 def resolve_arg(fi, arg, at_call):
     """follow a Name argument to its unique defining expression (else the expr itself)"""
     seen = 0
@@ -329,3 +353,92 @@ def thin_wrapper(ctx, rule, qual, lib_call_suffix, arg_map, returns=True):
         ctx.check(not rets, rule, fi, "%s returns nothing (the verdict is the exception)" % fi.name, witness=[norm(r)[:60] for r in rets])
     conds = cfg_of(fi).conditions_of(cfg_of(fi).node_of(c).id)
     ctx.check(not conds, rule, fi, "the primitive is called unconditionally in %s" % fi.name, witness=[norm(t) for t, p in conds])
+
+
+# ---------------------------------------------------------------------------------------------------------------------
+# straight-line symbolic evaluation of small builder functions
+
+class _Subst(ast.NodeTransformer):
+    def __init__(self, env):
+        self.env = env
+
+    def generic_visit(self, node):
+        if isinstance(node, (ast.Name, ast.Attribute, ast.Subscript)) and isinstance(getattr(node, "ctx", None), ast.Load):
+            k = ast.unparse(node)
+            if k in self.env:
+                return ast.parse(self.env[k], mode="eval").body
+        return super().generic_visit(node)
+
+
+def sym_paths(fi, limit=64):
+    """[(conditions, env, returned)] for every acyclic path of a loop-free function made of assignments, expression
+    statements, if / raise / return; env maps the text of each assigned target to the text of its value with earlier
+    assignments substituted (so two spellings of the same computation get the same text).  None when the function uses a
+    statement kind outside that fragment."""
+    out = []
+
+    def ev(expr, env):
+        clone = ast.parse(ast.unparse(expr), mode="eval").body
+        new = _Subst(env).visit(clone)
+        return ast.unparse(new)
+
+    class Unsupported(Exception):
+        pass
+
+    def run(stmts, env, conds):
+        """yields (env, conds, returned|None, finished)"""
+        if not stmts:
+            yield env, conds, None, False
+            return
+        st, rest = stmts[0], stmts[1:]
+        if isinstance(st, ast.Assign) and len(st.targets) == 1 and isinstance(st.targets[0], (ast.Name, ast.Attribute, ast.Subscript)):
+            v = ev(st.value, env)
+            env = dict(env)
+            k = ast.unparse(st.targets[0])
+            for old in [x for x in env if x.startswith(k + ".") or x.startswith(k + "[")]:
+                del env[old]
+            env[k] = v
+            yield from run(rest, env, conds)
+        elif isinstance(st, ast.AnnAssign) and st.value is not None and isinstance(st.target, ast.Name):
+            env = dict(env)
+            env[st.target.id] = ev(st.value, env)
+            yield from run(rest, env, conds)
+        elif isinstance(st, ast.Expr):
+            if isinstance(st.value, ast.Constant):
+                yield from run(rest, env, conds)
+            else:
+                env = dict(env)
+                env.setdefault("#effects", "")
+                env["#effects"] = env["#effects"] + ev(st.value, env) + ";"
+                yield from run(rest, env, conds)
+        elif isinstance(st, ast.Return):
+            yield env, conds, (ev(st.value, env) if st.value is not None else "None"), True
+        elif isinstance(st, ast.Raise):
+            yield env, conds, "#raise " + (ev(st.exc, env) if st.exc is not None else ""), True
+        elif isinstance(st, ast.If):
+            t = ev(st.test, env)
+            for (e2, c2, r2, fin) in run(st.body, env, conds + [(t, True)]):
+                if fin:
+                    yield e2, c2, r2, True
+                else:
+                    yield from run(rest, e2, c2)
+            for (e2, c2, r2, fin) in run(st.orelse, env, conds + [(t, False)]):
+                if fin:
+                    yield e2, c2, r2, True
+                else:
+                    yield from run(rest, e2, c2)
+        elif isinstance(st, ast.Pass):
+            yield from run(rest, env, conds)
+        elif isinstance(st, (ast.Import, ast.ImportFrom)):
+            yield from run(rest, env, conds)
+        else:
+            raise Unsupported(type(st).__name__)
+
+    try:
+        for (env, conds, ret, fin) in run(list(fi.node.body), {}, []):
+            out.append((conds, env, ret if fin else "None"))
+            if len(out) > limit:
+                return None
+    except Unsupported:
+        return None
+    return out
